@@ -4,7 +4,7 @@
    Tr = rev T (highest rank first), so that Go's prefix t[:k-1] is the tail.
    The model describes the REPAIRED code (D1: floor division in the two-rank base case). *)
 From Coq Require Import Qround.
-From MM Require Import Base.Num Base.GEComb Model.Choose.
+From MM Require Import Base.Num Base.GEComb Model.GEChoose.
 Open Scope Z_scope.
 
 (* ---------- coefficients and feasible range of 2U (udist.go:195-201, 301-323) ---------- *)
